@@ -278,3 +278,86 @@ def judge(result, peer, closed_by_us_in_teardown=True):
         F.append(Finding("timeout-removed-twice", "libdbus asked the application to remove a DBusTimeout that was not added (or twice), %d times"
                          % result["timer_remove_unknown"], -1))
     return F, sigs, cnt
+
+
+# ----------------------------------------------------------------------------- several blocking waits, one write
+#
+# Scenario class: k threads block (dbus_pending_call_block / send_with_reply_and_block) on k different calls of one
+# connection; the peer answers all of them with ONE write() - in an order of its own - and then stays silent.  Whichever
+# thread owns the I/O path reads all replies; every other thread has to find its reply in the incoming queue when it
+# is handed the I/O path.  "Block until the pending call is completed": a reply that has arrived completes its call;
+# the only thing that could still end the wait otherwise is the call's own timeout (>= 20 s or none here).
+#
+# Time is used in one direction only and generously: the harness's monitor starts its clock when the FIRST blocking
+# wait returns (so the one write has been read by libdbus) and reports a blocking wait that has still not returned
+# watch_ms (5 s) later - far below the smallest timeout used (20 s), far above any scheduling delay, and counted in the
+# monitor's own wake-ups as well as in wall time so that a stall of the whole process cannot expire it.
+
+def written_replies(peer):
+    """call index markers of every reply the peer wrote"""
+    return set(idx for entries in peer.by_serial.values() for (_, _, idx, _) in entries)
+
+
+def judge_multi_blocker_stuck(result, peer, mb):
+    """the harness reported {"mb_stuck":1,...}: -> (findings, counters)"""
+    F = []
+    cnt = collections.Counter()
+    replied = written_replies(peer)
+    blockers = result.get("blockers", [])
+    returned = sorted(b["c"] for b in blockers if b["blk"] == 2)
+    lag_ms = (result.get("now_us", 0) - result.get("first_return_us", 0)) // 1000
+    seen = set()
+    for b in blockers:
+        if b["blk"] != 1:
+            continue
+        cnt["mb-stuck-blockers"] += 1
+        if b["c"] not in replied:
+            # not this scenario (the peer never answered this call): nothing is promised
+            F.append(Finding("INCONCLUSIVE-MB", "blocking wait on call %d has not returned but the peer did not write a reply for it" % b["c"], b["c"]))
+            continue
+        cls = "infinite-timeout" if b["timeout"] == INFINITE else "finite-timeout"
+        if cls in seen:
+            continue
+        seen.add(cls)
+        F.append(Finding("hang:reply-queued-but-blocker-sleeps:" + cls,
+                         "the blocking wait of thread %d on call %d (timeout %s) had not returned %d ms after the blocking wait(s) on call(s) %r "
+                         "of the same connection returned, although the peer had written the replies to calls %r in one write() (and nothing "
+                         "afterwards): the reply has arrived and does not complete its call (get_completed=%d)"
+                         % (b["tid"], b["c"], "none" if b["timeout"] == INFINITE else "%d ms" % b["timeout"], lag_ms, returned,
+                            sorted(replied), b.get("completed", -1)), b["c"]))
+    return F, cnt
+
+
+def judge_multi_blocker(result, peer, mb, writes, t_written_us):
+    """evidence for a multi-blocker case that ran to its end.  writes: list of (reply idx markers in write order) per
+    write() of the peer that contained replies; t_written_us: absolute monotonic time after that write"""
+    cnt = collections.Counter()
+    k = mb["k"]
+    one_write = len(writes) == 1 and len(writes[0]) == k
+    if one_write:
+        cnt["mb-one-write-verified"] += 1
+        serial_of = {c["c"]: c["serial"] for c in result["calls"]}
+        by_serial = sorted(writes[0], key=lambda i: serial_of.get(i, 0))
+        if list(writes[0]) != by_serial:
+            cnt["mb-reply-order-differs-from-call-order"] += 1
+    t0 = result.get("t0_us")
+    begs = {}
+    ends = {}
+    for e in result["events"]:
+        if e["k"] in ("bbeg", "wbeg"):
+            begs[e["c"]] = e["us"]
+        elif e["k"] in ("bend", "wend"):
+            ends[e["c"]] = e["us"]
+    if t0 is not None and t_written_us is not None and one_write:
+        waiting = sum(1 for c, us in begs.items() if t0 + us + 2000 < t_written_us)
+        cnt["mb-blocked-at-write:%d" % waiting] += 1
+        if waiting >= 2:
+            cnt["mb-handover-cases"] += 1
+            if any(t == INFINITE for t in mb["timeouts"]):
+                cnt["mb-handover-cases:infinite"] += 1
+            if any(t != INFINITE for t in mb["timeouts"]):
+                cnt["mb-handover-cases:finite"] += 1
+    if len(ends) >= 2:
+        lag = (max(ends.values()) - min(ends.values())) / 1000.0
+        cnt["mb-return-spread:" + ("<=10ms" if lag <= 10 else "<=100ms" if lag <= 100 else "<=1s" if lag <= 1000 else ">1s")] += 1
+    return cnt
